@@ -1019,3 +1019,57 @@ def r_useless_kept(ctx):
                   "is kept, so the result differs from connect_coding_graph" % show(arg)[:40],
                   inputs='latter maps naming a successor that has no key, e.g. accessor_to_latter_map(connect_valid_graph(mask))')
     run.floor('R-KEEP', 'kept-successor appends in remove_useless', n, 1)
+
+
+def r_verts(ctx):
+    """obtain_vertices lists row indices (the vertices that have an arc), never entries (the vertices arcs point to)"""
+    run = ctx.run
+    run.rule('R-VERTS', "obtain_vertices returns positions of rows selected by a row predicate (where(P(rows))[0] and wrappers): "
+                        "no accessor entry flows into the returned collection")
+    f = ctx.p.func('dsw.graphized.obtain_vertices')
+    K = ctx.kinds
+    n = 0
+    for nd in f.stmts(ast.Return):
+        if nd.stmt.value is None:
+            continue
+        n += 1
+        t = f.term(nd.stmt.value, nd)
+
+        def strip(x):
+            while True:
+                if x[0] == 'call' and x[1][0] == 'attr' and x[1][2] in ('astype', 'tolist', 'copy', 'flatten', 'ravel'):
+                    x = x[1][1]
+                elif is_call(x, 'builtins.list', 'builtins.sorted', 'numpy.array', 'numpy.asarray', 'numpy.sort', 'numpy.unique',
+                             'builtins.int') and x[2]:
+                    x = x[2][0]
+                else:
+                    return x
+        core = strip(t)
+        positions = (core[0] == 'sub' and core[2] == ('c', 0) and is_call(core[1], 'numpy.where', 'numpy.nonzero')) or \
+            is_call(core, 'numpy.flatnonzero') or \
+            (core[0] == 'sub' and core[2] == ('c', 0) and core[1][0] == 'call' and core[1][1][0] == 'attr' and core[1][1][2] == 'nonzero')
+        comp_pos = core[0] == 'comp' and core[2][0] in ('idx', 'item', 'iter') and not any(
+            K.kind(x, f) in ('ENTRY',) for x in walk_term(core[2]))
+        entries = []
+        if is_call(core, 'numpy.union1d', 'numpy.concatenate', 'numpy.append', 'numpy.hstack', 'numpy.unique') or \
+                (core[0] == 'bin' and core[1] in ('+', '|')):
+            parts = list(core[2]) if core[0] == 'call' else [core[2], core[3]]
+            flat = []
+            for p_ in parts:
+                flat.extend(p_[1:] if p_[0] in ('tuple', 'list') else [p_])
+            for p_ in flat:
+                s_ = strip(p_)
+                if K.kind(s_, f) in ('ROW', 'COL', 'ENTRY', 'ACC') or \
+                        (s_[0] == 'sub' and K.kind(s_[1], f) == 'ACC' and s_[2][0] == 'cmp'):
+                    entries.append(show(s_)[:50])
+        if entries:
+            run.refute('R-VERTS', f, 'return#%d:row-positions-only' % n, nd.lineno,
+                       'obtain_vertices merges accessor entries (%s) into its result: a vertex that is only the target of an arc '
+                       '(a sink) is listed although it has no arc' % entries[0],
+                       inputs='graphs with a vertex that has incoming but no outgoing arcs')
+        elif positions or comp_pos:
+            run.ok('R-VERTS', f, 'return#%d:row-positions-only' % n, nd.lineno, 'positions of the rows selected by a row predicate')
+        else:
+            run.undecided('R-VERTS', f, 'return#%d:row-positions-only' % n, nd.lineno,
+                          'the returned collection %s is not in a recognised form' % show(core)[:80])
+    run.floor('R-VERTS', 'returns of obtain_vertices', n, 1)
